@@ -569,3 +569,6 @@ pub fn unrank(mut idx: u64, radices: &[u64]) -> Vec<usize> {
 pub fn product(radices: &[u64]) -> u64 {
     radices.iter().product()
 }
+
+/// the panic hook is process-wide; the captured message is thread-local. Nothing to install per thread.
+pub fn install_panic_hook_thread() {}
